@@ -184,6 +184,26 @@ def check(ctx):
     from .c13 import factory_key_rule
     factory_key_rule(ctx, "C12.R7")
 
+    # ---------------- R8: type hints that become source / target / field types keep their Annotated metadata
+    ctx.rule("C12.R8", "get_type_hints is called with include_extras=True wherever its result becomes a conversion source / target, a field or a return type (Annotated metadata carries the schema constraints and validators of that type)", floor=8)
+    IDENTITY_ONLY = {
+        "apischema.validation.validators.validator": "only the class of the first parameter is used (owner lookup)",
+        "apischema.methods.method_registerer.<locals>.decorator": "only the class of the first parameter is used (owner lookup)",
+        "apischema.utils.is_async": "only whether the return type is awaitable is used",
+    }
+    for fi in model.functions.values():
+        for c in model.calls_in(fi, include_nested=False):
+            if (dotted(c.func) or "").split(".")[-1] != "get_type_hints" or fi.name == "get_type_hints":
+                continue
+            construct = f"{fi.qualname}:get_type_hints({norm(c.args[0]) if c.args else ''})"
+            named = next((why for q, why in IDENTITY_ONLY.items() if fi.qualname == q or fi.qualname.startswith(q + ".")), None)
+            if named:
+                ctx.ok("C12.R8", construct, "named exception: " + named, nontrivial=False, where=fi.loc)
+                continue
+            kw = {k.arg: k.value for k in c.keywords}
+            ok = "include_extras" in kw and isinstance(kw["include_extras"], ast.Constant) and kw["include_extras"].value is True
+            ctx.check(ok, "C12.R8", construct, c, f"`{short(c, 70)}` drops Annotated metadata: a source / target / return type declared `Annotated[T, schema(...)]` loses its constraints, so the converted type no longer rejects what its source rejects and its JSON schema is not the source's", fi, c, detail="include_extras=True")
+
 
 def mutants(mb):
     CVp = "apischema/conversions/visitor.py"
@@ -192,6 +212,7 @@ def mutants(mb):
     M = "apischema/deserialization/methods.py"
     CO = "apischema/conversions/converters.py"
     mb.add_text("conversion-factory-keyed", D, "        return self._factory(factory, validation=not dynamic)\n", "        return dataclasses.replace(self._factory(factory, validation=not dynamic), cls=conv_factories[0].cls)\n", "C12.R7", "replace(cls=)")
+    mb.add_text("converter-types-no-extras", "apischema/conversions/utils.py", "        types = get_type_hints(converter, None, namespace, include_extras=True)", "        types = get_type_hints(converter, None, namespace)", "C12.R8", "converter_types")
     mb.add_text("guard-conversion-none", CVp, "        if not dynamic and is_subclass(tp, Collection) and not is_subclass(tp, str):", "        if (\n            conversion is None\n            and is_subclass(tp, Collection)\n            and not is_subclass(tp, str)\n        ):", "C12.R3", "guard")
     mb.add_text("guard-no-str", CVp, "        if not dynamic and is_subclass(tp, Collection) and not is_subclass(tp, str):", "        if not dynamic and is_subclass(tp, Collection):", "C12.R3", "guard")
     mb.add_text("guard-always", CVp, "        if not dynamic and is_subclass(tp, Collection) and not is_subclass(tp, str):", "        if not dynamic:", "C12.R3", "guard")
